@@ -4,9 +4,9 @@ are re-derived for a new reference commit - never at check time)."""
 import ast, json, os, sys
 V = os.path.dirname(os.path.dirname(os.path.abspath(__file__)))
 sys.path.insert(0, V)
-from sa.inline import qualnames
+from sa.inline import qualnames, ordered_locals
 src = sys.argv[1] if len(sys.argv) > 1 else "/repo/src/xstate_statemachine"
-funcs, params, consts = [], {}, {}
+funcs, params, consts, locs = [], {}, {}, {}
 for root, dirs, files in os.walk(src):
     dirs[:] = [d for d in dirs if d != "__pycache__"]
     for fn in sorted(files):
@@ -22,11 +22,13 @@ for root, dirs, files in os.walk(src):
             funcs.append(qn)
             a = node.args
             params[qn] = [x.arg for x in a.posonlyargs + a.args + a.kwonlyargs]
+            locs[qn] = ordered_locals(node)
 out = {"comment": "qualified names (and parameter names) of every function of the reference tree (/repo at the time the rules were written); a private "
                   "function that is not listed is treated as an extracted helper and inlined into its callers before analysis (sa/inline.py); a new "
                   "function that takes the place of a listed one that is gone (same scope, same parameters) is a rename and is left alone",
        "functions": sorted(set(funcs)), "params": {k: params[k] for k in sorted(params)},
-       "module_names": {k: consts[k] for k in sorted(consts)}}
+       "module_names": {k: consts[k] for k in sorted(consts)},
+       "locals": {k: locs[k] for k in sorted(locs) if locs[k]}}
 with open(os.path.join(V, "rules", "known_functions.json"), "w") as fh:
     json.dump(out, fh, indent=0)
 print(len(out["functions"]), "functions")
